@@ -46,6 +46,12 @@ def op_terms(op):
             cN(p["change_outputs"]), cB(p["all"]))
         return [refresh_term(op["parent"], False, op["view"]),
                 "OpInitSend %s %s %s %s" % (cN(slate), cOpt(op["src"], cN), params, cB(op["late"]))]
+    if k == "init_send_only":
+        p = op["p"]
+        params = "(mkParams %s %s %s %s %s %s %s 0%%N)" % (
+            cN(p["amount"]), cB(p["aif"]), cN(p["h"]), cN(p["minconf"]), cN(p["max_outputs"]),
+            cN(p["change_outputs"]), cB(p["all"]))
+        return ["OpInitSend %s %s %s %s" % (cN(op["slate"]), cOpt(op["src"], cN), params, cB(op["late"]))]
     if k == "issue_invoice":
         slate = op["slate"] if op["slate"] is not None else 999999
         return ["OpIssueInvoice %s %s %s %s" % (cN(slate), cN(op["amount"]), cN(op["tip"]), cOpt(op["dest"], cN))]
